@@ -796,13 +796,16 @@ def forced_from_log(rc, log):
 
 
 def _split_samples(events):
-    """events -> per sample (draw, list of repetition bundles)"""
+    """events -> per sample (draw, list of repetition bundles); None when an evaluation event
+    precedes the first draw (the routine evaluated something that is not a drawn sample)"""
     out = []
     cur = None
     for e in events:
         if e['e'] == 'draw':
             cur = {'d': e['d'], 'reps': []}
             out.append(cur)
+        elif cur is None:
+            return None
         elif e['e'] == 'sets':
             cur['reps'].append({'pp': e['pp']})
         elif e['e'] in ('fit', 'compare', 'ceiling'):
@@ -843,6 +846,9 @@ def replay_behaviour(rec_json, const, flavour, mode, method, fitmode, seed, thet
         viol('a/evaluations-shape', {'stored': list(ev.shape), 'expected': list(expected_shape(rc, nr))})
         return bad, stats
     samples = _split_samples(rec.events)
+    if samples is None:
+        viol('a/compare-before-draw', {'events': [e['e'] for e in rec.events][:12]})
+        return bad, stats
     if len(samples) != rc['N']:
         viol('draws', {'error': f'{len(samples)} samples drawn, N = {rc["N"]}'})
         return bad, stats
